@@ -15,6 +15,7 @@ Import ListNotations.
 Require Import ITree.Model.Common ITree.Model.RBTree ITree.Model.MapModel ITree.Model.KeyModel.
 Require Import ITree.Spec.Spec ITree.Proofs.KeyListProofs ITree.Proofs.KeyProofs ITree.Proofs.KeyRefine.
 Require ITree.Model.Pool ITree.Model.ArenaModel ITree.Model.ArenaKey ITree.Proofs.ArenaProofs ITree.Proofs.ArenaKeyProofs.
+Require ITree.Model.ArenaKeyRun ITree.Proofs.ArenaKeyRunProofs.
 
 (* every valid history, of any length, from a new tree with any capacity hint, runs to completion on
    the tree model (lazy expiry, physical removal and rebalancing included) and every predecessor query
@@ -86,3 +87,20 @@ Theorem C01_arena_insert : forall (ne: KeyModel.kent) (time: Z) (s: KeyModel.kst
   exists a', ArenaKey.arena_k_insert dfuel efuel sfuel ifuel (a, KeyModel.kpl s) ne time = Ret (a', KeyModel.kpl s') /\
     ArenaProofs.Rep a' ArenaModel.EMPTY (ArenaModel.aroot a') (KeyModel.kroot s').
 Proof. exact ArenaKeyProofs.arena_k_insert_refines. Qed.
+
+(* the WHOLE interface of the expiring-key tree as one arena-level step function ([arena_k_step]: the
+   function the model runner executes against the implementation's raw buffer, DESIGN.md section 4.6):
+   along every history that keeps the insertion contract it returns the outputs of the tree-level
+   model, and the arena keeps representing the model's tree with consistent links *)
+Theorem C01_arena_run : forall (fuel: nat) (h: list kop) (a: ArenaModel.astate kent) (s s': kstate) (outs: list kout),
+  KeyProofs.KInv s -> ArenaProofs.Rep a ArenaModel.EMPTY (ArenaModel.aroot a) (kroot s) ->
+  ArenaKeyRunProofs.krun_ok fuel s h -> k_run s h = Ret (s', outs) ->
+  exists a', ArenaKeyRun.arena_k_run fuel (a, kpl s) h = Ret ((a', kpl s'), outs) /\
+             ArenaProofs.Rep a' ArenaModel.EMPTY (ArenaModel.aroot a') (kroot s') /\ KeyProofs.KInv s'.
+Proof. exact ArenaKeyRunProofs.arena_k_run_refines. Qed.
+
+(* its side conditions hold on a concrete history (three insertions, a query that removes an expired
+   root, export, clear, re-insertion of the key, lookup) *)
+Theorem C01_arena_run_nonvacuous : ArenaKeyRunProofs.krun_ok 16 (k_new 8) ArenaKeyRunProofs.demo_hist.
+Proof. exact ArenaKeyRunProofs.krun_ok_demo. Qed.
+
